@@ -81,9 +81,13 @@ ASSUMPTIONS = [
     "the number of variants and ignores surplus elements (has_variants / iterators.exhaust_then_last, named in the "
     "property's mechanism list); alter_num_variants(k) keeps the first k variants or appends copies of the last one",
     "a model recreated from its portable form carries values but no first-order solution (the portable form has no "
-    "solution field): solution, simulation and filter of such an object are compared only after a solve() on it; steady "
-    "changes of an object that went through JSON are not compared until its next steady() (JSON turns the documented "
-    "(level, change) two-tuples into lists, which from_portable reads as variants - recorded, outside the statement)",
+    "solution field): solution, simulation and filter of such an object are compared only after a solve() on it",
+    "JSON turns the documented (level, change) two-tuples of the portable form into lists, which from_portable reads as "
+    "variants, i.e. the level only: the steady changes left by a nonflat steady() (0 or 1 up to rounding) come back "
+    "missing (recorded as an observation; steady changes are not in the statement's list for the portable form).  For "
+    "an object derived through JSON from a nonflat model only parameters, stds and steady levels are compared until a "
+    "steady() of a linear model (a direct solve) has replaced the changes; for nonlinear nonflat models the iterative "
+    "steady solver starts from the stored values, so such an object stays outside the exact comparison",
     "get_variant(k) / model[k] are views sharing the variant with the parent: the harness only reads through them",
     "solve()/steady() may reject a parameterisation by raising; the reference must then raise as well, the object is "
     "retired and the other objects must stay unaffected",
@@ -334,6 +338,8 @@ class _Harness:
         first = _Obj("original", None, -1, [_Var(params, stds, hist, True)])
         self.pool = [first]
         self.labels = set()
+        self.linear = not spec["log"]
+        self.flat = bool(case["flat"])
 
     def resolve(self, op):
         """Plain description of what the step does (indices resolved against the current pool)."""
@@ -363,7 +369,10 @@ class _Harness:
                 w = v.clone()
                 if portable:
                     w.solved = False
-                    if step["kind"] == "portable_json":
+                    if step["kind"] == "portable_json" and not self.flat:
+                        # JSON turns the (level, change) two-tuples into lists and from_portable then reads the
+                        # level only: the steady changes computed by a nonflat steady() (0 or 1 up to rounding)
+                        # are replaced by missing values; everything that depends on them is no longer exact
                         w.changes_judged = False
                 variants.append(w)
             new = _Obj(step["kind"], step["src"], k, variants)
@@ -396,7 +405,8 @@ class _Harness:
         elif op == "steady":
             for v in o.variants:
                 v.hist.append(("steady",))
-                v.changes_judged = True
+                if self.linear:
+                    v.changes_judged = True      # a direct linear solve: independent of the previous values
             self.labels.add("op_steady")
         elif op == "alter":
             kk = step["k"]
@@ -536,7 +546,7 @@ def _per_variant(value, nv):
     return [value] * nv
 
 
-def _observe_whole(ctx, m, nv, want_solution, deep):
+def _observe_whole(ctx, m, nv, want_solution, deep, sim):
     """Observables of all `nv` variants of `m`, read from the object as a whole: list of dicts over variants."""
     lev = m.get_steady_levels(unpack_singleton=False)
     chg = m.get_steady_changes(unpack_singleton=False)
@@ -570,10 +580,10 @@ def _observe_whole(ctx, m, nv, want_solution, deep):
             info = info if isinstance(info, list) else [info]
             for k in range(nv):
                 out[k]["check_steady"] = info[k]["discrepancies"]
-    if deep and all(want_solution):
-        sim = m.simulate(ctx.db_sim, ctx.span, method="first_order")
+    if sim:
+        res = m.simulate(ctx.db_sim, ctx.span, method="first_order")
         for k in range(nv):
-            out[k]["simulate"] = {nm: np.asarray(sim[nm].get_data(ctx.span), dtype=float)[:, k] for nm in ctx.vars}
+            out[k]["simulate"] = {nm: np.asarray(res[nm].get_data(ctx.span), dtype=float)[:, k] for nm in ctx.vars}
         if ctx.has_kf:
             try:
                 _, info = m.kalman_filter(ctx.db_kf, ctx.span, return_info=True)
@@ -588,12 +598,13 @@ def _observe_whole(ctx, m, nv, want_solution, deep):
 
 
 def _observe(ctx, m, nv, want_solution, deep, use_view):
+    sim = deep and all(want_solution)
     if not use_view or nv == 1:
-        return _observe_whole(ctx, m, nv, want_solution, deep)
+        return _observe_whole(ctx, m, nv, want_solution, deep, sim)
     out = []
     for k in range(nv):
         view = m.get_variant(k) if k % 2 == 0 else m[k]
-        out += _observe_whole(ctx, view, 1, [want_solution[k]], deep and all(want_solution))
+        out += _observe_whole(ctx, view, 1, [want_solution[k]], deep, sim)
     return out
 
 
@@ -609,10 +620,10 @@ class _Shadow:
         self.cache = {}
         _apply_hist(self.m, [h])
 
-    def observe(self, ctx, want_solution, deep):
-        key = (bool(want_solution), bool(deep))
+    def observe(self, ctx, want_solution, deep, sim):
+        key = (bool(want_solution), bool(deep), bool(sim))
         if key not in self.cache:
-            self.cache[key] = _observe_whole(ctx, self.m, 1, [want_solution], deep)[0]
+            self.cache[key] = _observe_whole(ctx, self.m, 1, [want_solution], deep, sim)[0]
         return self.cache[key]
 
 
@@ -641,6 +652,8 @@ def _compare_variant(col, ctx, tag, got, ref, var, where, nv_is_one=True):
                     dd = _differs(gs[nm], rs[nm])
                     if not col.check(dd is None, f"{tag}:solution", lambda: f"{where}: solution matrix {nm}: {dd}"):
                         break
+    if not var.changes_judged:
+        return
     if nv_is_one and ("check_steady_raises" in got or "check_steady_raises" in ref):
         col.check(got.get("check_steady_raises") == ref.get("check_steady_raises"), f"{tag}:check_steady_raises_differently",
                   lambda: f"{where}: check_steady raised {got.get('check_steady_raises')!r}, on the reference {ref.get('check_steady_raises')!r}")
@@ -770,7 +783,7 @@ def _check_sim(case):
             if not col.check(got_nv == nv, f"{tag}:num_variants", lambda: f"{where}: {got_nv} variants, expected {nv}"):
                 o.dead = True
                 continue
-            want = [v.solved for v in o.variants]
+            want = [v.solved and v.changes_judged for v in o.variants]
             deep = last or i in touched
             n_before = len(col.items)
             try:
@@ -782,7 +795,7 @@ def _check_sim(case):
                 o.dead = True
                 continue
             for vi, v in enumerate(o.variants):
-                ref = shadows[i][vi].observe(ctx, v.solved, deep and all(want))
+                ref = shadows[i][vi].observe(ctx, want[vi], deep, deep and all(want))
                 _compare_variant(col, ctx, tag, got[vi], ref, v, f"{where} variant {vi}/{nv}\n{ctx.source}", nv == 1 or use_view)
             if len(col.items) > n_before:
                 o.dead = True     # report each object once; keep examining the others
@@ -844,6 +857,10 @@ def _check_sim(case):
             except Exception as exc:  # noqa: BLE001
                 col.fail(f"replay:raises:{type(exc).__name__}", f"{where}: {type(exc).__name__}: {exc}\n{ctx.source}"[:1500])
                 o.dead = True
+        elif step["op"] == "steady" and not h.linear and not all(v.changes_judged for v in o.variants):
+            # the iterative steady solver would start from values the JSON route has altered: not comparable any more
+            o.dead = True
+            outcome.append("retired_inexact_before_nonlinear_steady")
         else:
             fn = (lambda mm: mm.solve()) if step["op"] == "solve" else (lambda mm: _quiet(mm.steady))
             exc_obj = None
